@@ -61,6 +61,10 @@ Section WithBuiltins.
   Definition has_empty_prefix (s : fstack) (ns : nsid) : bool :=
     match element_prefix_by_namespace (fs_top s) ns with Some p => N.eqb p empty_prefix | None => false end.
 
+  (* the new binding replaces any other binding of the empty prefix *)
   Definition add_empty_prefix (s : fstack) (ns : nsid) : fstack :=
-    match s with t :: s' => (t ++ [(empty_prefix, ns)]) :: s' | [] => [] end.
+    match s with
+    | t :: s' => (filter (fun x => negb (N.eqb (fst x) empty_prefix)) t ++ [(empty_prefix, ns)]) :: s'
+    | [] => []
+    end.
 End WithBuiltins.
